@@ -25,7 +25,7 @@ def fld(node):
         return node.attr
     if (isinstance(node, ast.Attribute) and isinstance(node.value, ast.Attribute)
             and isinstance(node.value.value, ast.Name) and node.value.value.id == "self"
-            and node.value.attr == "inbuiltstore"):
+            and node.value.attr in ("inbuiltstore", "belt")):
         return node.attr
     raise Unsupported(ast.dump(node)[:80])
 
@@ -106,6 +106,9 @@ class Tr:
             return self.b(s.value)
         if isinstance(s, ast.If) and not s.orelse and len(s.body) == 1 and isinstance(s.body[0], ast.Return):
             return "(if %s then %s else %s)" % (self.b(s.test), self.b(s.body[0].value), self.returns(body[1:]))
+        if isinstance(s, ast.If) and len(s.body) == 1 and isinstance(s.body[0], ast.Return) and len(s.orelse) == 1 \
+                and isinstance(s.orelse[0], ast.Return) and len(body) == 1:
+            return "(if %s then %s else %s)" % (self.b(s.test), self.b(s.body[0].value), self.b(s.orelse[0].value))
         raise Unsupported("statement " + type(s).__name__)
 
     def returns_z(self, body):
@@ -182,6 +185,9 @@ for cls, f, occ in [("Buffer", "edges/buffer.py", "occupancy"), ("Fleet", "edges
          "(if (n_ready_items l =? 0) then false else (n_ready_items l >? n_reservations_get l))")
     frag("%s_occupancy" % cls, f, lambda t, c=cls, o=occ: Tr().returns_z(find(t, c, o).body),
          "(n_items l + n_ready_items l)", kind="Z")
+# the continuous conveyor's stall test (C13): stalled = an item waits at the exit
+frag("ContBelt_is_stalled", "edges/continuous_conveyor.py", lambda t: Tr().returns(find(t, "ConveyorBelt", "is_stalled").body),
+     "(if (negb (n_ready_items l =? 0)) then true else false)")
 frag("round_robin_next", "utils/utils.py",
      lambda t: Tr(env={"i": "i", "edges": None}).z(_rr(t)), "((i + 1) mod n_edges)", kind="rr")
 
